@@ -518,6 +518,69 @@ def main():
         return {"response_layout": lay}
     attempt(["response_layout"], t_resp_layout)
 
+    # the reads of each body parser, in the order executed: (field, what is read). Struct
+    # literal fields are evaluated in the order written; a read under a condition or in a
+    # loop is a shape this does not follow
+    body_field_ids = {"flags": 1, "expiration": 2, "key": 3, "value": 4, "delta": 5, "initial": 6}
+    body_parsers = [("set", "parse_set_request"), ("incdec", "parse_inc_dec_request"),
+                    ("append", "parse_append_prepend_request"), ("get", "parse_get_request"),
+                    ("delete", "parse_delete_request")]
+
+    def t_body_reads(fname):
+        body = rsexpr.strip_comments(rsexpr.fn_body(codec, fname))
+        lets = dict((m.group(1), m.group(2).strip()) for m in re.finditer(r"\blet\s+(?:mut\s+)?([a-z_]+)\s*(?::[^=;]+)?=\s*([^;]+);", body))
+
+        def classify(arg):
+            a = re.sub(r"\s+", "", arg)
+            seen = 0
+            while a in lets and seen < 5:
+                a = re.sub(r"\s+", "", lets[a]); seen += 1
+            if a == "self.header.key_lengthasusize":
+                return "RdKey"
+            if a == "self.get_value_len()":
+                return "RdValue"
+            raise RsError("%s: split_to(%s) is neither the key length nor get_value_len()" % (fname, arg.strip()))
+        reads = []
+        for m in re.finditer(r"src\s*\.\s*(get_u8|get_u16|get_u32|get_u64|split_to)\s*\(([^()]*(?:\([^()]*\))?[^()]*)\)", body):
+            # every brace open at the read must belong to a struct literal
+            depth_openers = []
+            for i, ch in enumerate(body[:m.start()]):
+                if ch == "{":
+                    depth_openers.append(i)
+                elif ch == "}":
+                    depth_openers.pop()
+            for o in depth_openers:
+                before = body[:o].rstrip()
+                if not re.search(r"[A-Za-z_][A-Za-z_0-9]*(::[A-Za-z_][A-Za-z_0-9]*)+$", before) or re.search(r"\b(if|else|match|while|for|loop)\b[^;{}]*$", before):
+                    raise RsError("%s: a read of the body under a condition or in a block" % fname)
+            kind = ("RdU %d" % (rsexpr.BITS[m.group(1)[4:]] // 8)) if m.group(1) != "split_to" else classify(m.group(2))
+            # the name it is bound to: a struct field, or a let (followed through `.freeze()` aliases)
+            pre = body[:m.start()].rstrip()
+            mf = re.search(r"([a-z_]+)\s*:$", pre)
+            ml = re.search(r"\blet\s+(?:mut\s+)?([a-z_]+)\s*(?::[^=;]+)?=$", pre)
+            if mf:
+                name = mf.group(1)
+            elif ml:
+                name = ml.group(1)
+                for _ in range(3):
+                    if name in body_field_ids:
+                        break
+                    al = re.search(r"\blet\s+([a-z_]+)\s*=\s*%s\s*\.\s*freeze\s*\(\s*\)\s*;" % re.escape(name), body)
+                    if not al:
+                        break
+                    name = al.group(1)
+            else:
+                raise RsError("%s: a read of the body whose result is not a field or a let" % fname)
+            if name not in body_field_ids:
+                raise RsError("%s: read bound to unknown name %s" % (fname, name))
+            reads.append((name, kind))
+        if not reads:
+            raise RsError("%s: no reads of the body found" % fname)
+        return reads
+
+    for short, fname in body_parsers:
+        attempt(["body_reads_" + short], (lambda f=fname, sh=short: {"body_reads_" + sh: t_body_reads(f)}))
+
     L = []
     A = L.append
     A("(* GENERATED by tools/gen_tables.py from the Rust sources — do not edit. *)")
@@ -634,6 +697,16 @@ def main():
             A("(* not translated: %s *)" % untranslated[item].replace("*)", "* )").replace("(*", "( *"))
             A("Definition src_%s_ok : bool := false." % item)
             A("Definition src_%s : layout := []." % item)
+    A("(* the reads of the body parsers, in the order executed: (field, read); fields: " + ", ".join("%d %s" % (v, k) for k, v in body_field_ids.items()) + " *)")
+    for short, fname in body_parsers:
+        item = "body_reads_" + short
+        if item in gen:
+            A("Definition src_%s_ok : bool := true." % item)
+            A("Definition src_%s : list (N * bread) := [%s]." % (item, "; ".join("(%d, %s)" % (body_field_ids[n], k) for n, k in gen[item])))
+        else:
+            A("(* not translated: %s *)" % untranslated[item].replace("*)", "* )").replace("(*", "( *"))
+            A("Definition src_%s_ok : bool := false." % item)
+            A("Definition src_%s : list (N * bread) := []." % item)
     A("")
     text = "\n".join(L)
     out = os.path.normpath(OUT)
